@@ -185,6 +185,13 @@ fn candidates(w: &World, p: &Plan) -> Vec<(World, Plan)> {
         out.push((c, p.clone()));
     }
     for i in 0..w.files.len() {
+        if w.files[i].pad_kib > 0 {
+            let mut c = w.clone();
+            c.files[i].pad_kib = 0;
+            out.push((c, p.clone()));
+        }
+    }
+    for i in 0..w.files.len() {
         if w.files[i].was_symlink {
             let mut c = w.clone();
             c.files[i].was_symlink = false;
